@@ -249,6 +249,20 @@ func c19Check(cs c19Case) (sig, detail string) {
 	case got != cs.Want:
 		return "wrong-value:" + cs.Fn + unit + yc, fmt.Sprintf("args %q: got %s want %s (instant %s)", cs.Args, got, cs.Want, cs.Instant)
 	}
+	// the text agrees with the standard formatter; when it carries a zone it must also DENOTE the instant
+	if cs.Fn != "dateTimeToEpoch" && cs.Instant != "" && len(got) > 19 {
+		want, perr := time.Parse(time.RFC3339Nano, cs.Instant)
+		back, berr := time.Parse(time.RFC3339, got)
+		switch {
+		case perr != nil:
+		case want.Year() < 1 || want.Year() > 9999 || strings.HasPrefix(got, "10000-") || strings.HasPrefix(got, "0000-"):
+			// the instant, or its reading in the target zone, lies outside the years 1..9999 of the property
+		case berr != nil:
+			return "rfc3339-text-not-parsable:" + cs.Fn, fmt.Sprintf("args %q returned %q, which is not RFC3339 (%v)", cs.Args, got, berr)
+		case back.Unix() != want.Unix():
+			return "rfc3339-text-denotes-another-instant:zone-offset-with-seconds", fmt.Sprintf("args %q returned %q, which reads as %s, %d s away from the instant %s (the zone's offset at that time has a seconds part that RFC3339 cannot express)", cs.Args, got, back.UTC().Format(time.RFC3339), back.Unix()-want.Unix(), want.UTC().Format(time.RFC3339))
+		}
+	}
 	return "", ""
 }
 
@@ -367,16 +381,16 @@ func c19Run(c *core.Ctx) {
 			want = rfc(out)
 		}
 		lay := l.String()
-		emit(c19Case{Fn: "dateTimeToRFC3339", Args: []string{s, fromTZ, toTZ}, Want: want, Instant: out.Format(time.RFC3339Nano), Layout: lay})
+		emit(c19Case{Fn: "dateTimeToRFC3339", Args: []string{s, fromTZ, toTZ}, Want: want, Instant: out.UTC().Format(time.RFC3339Nano), Layout: lay})
 		if toTZ == "" {
 			// epoch: zone-less input without fromTZ is taken at face value (UTC)
 			e := expInst
-			emit(c19Case{Fn: "dateTimeToEpoch", Args: []string{s, fromTZ, "SECOND"}, Want: strconv.FormatInt(e.Unix(), 10), Instant: e.Format(time.RFC3339Nano), Layout: lay})
+			emit(c19Case{Fn: "dateTimeToEpoch", Args: []string{s, fromTZ, "SECOND"}, Want: strconv.FormatInt(e.Unix(), 10), Instant: e.UTC().Format(time.RFC3339Nano), Layout: lay})
 			ms := e.Unix()*1000 + int64(e.Nanosecond()/1e6)
-			emit(c19Case{Fn: "dateTimeToEpoch", Args: []string{s, fromTZ, "MILLISECOND"}, Want: strconv.FormatInt(ms, 10), Instant: e.Format(time.RFC3339Nano), Layout: lay})
+			emit(c19Case{Fn: "dateTimeToEpoch", Args: []string{s, fromTZ, "MILLISECOND"}, Want: strconv.FormatInt(ms, 10), Instant: e.UTC().Format(time.RFC3339Nano), Layout: lay})
 			// inverse
-			emit(c19Case{Fn: "epochToDateTimeRFC3339", Args: []string{strconv.FormatInt(e.Unix(), 10), "SECOND"}, Want: rfc(e.UTC()), Instant: e.Format(time.RFC3339Nano)})
-			emit(c19Case{Fn: "epochToDateTimeRFC3339", Args: []string{strconv.FormatInt(ms, 10), "MILLISECOND", "America/New_York"}, Want: rfc(time.Unix(e.Unix(), int64(e.Nanosecond()/1e6)*1e6).In(ny)), Instant: e.Format(time.RFC3339Nano)})
+			emit(c19Case{Fn: "epochToDateTimeRFC3339", Args: []string{strconv.FormatInt(e.Unix(), 10), "SECOND"}, Want: rfc(e.UTC()), Instant: e.UTC().Format(time.RFC3339Nano)})
+			emit(c19Case{Fn: "epochToDateTimeRFC3339", Args: []string{strconv.FormatInt(ms, 10), "MILLISECOND", "America/New_York"}, Want: rfc(time.Unix(e.Unix(), int64(e.Nanosecond()/1e6)*1e6).In(ny)), Instant: e.UTC().Format(time.RFC3339Nano)})
 		}
 	}
 
@@ -572,13 +586,13 @@ func c19Run(c *core.Ctx) {
 			if lt.tz {
 				want = rfc(in)
 			}
-			emit(c19Case{Fn: "dateTimeLayoutToRFC3339", Args: []string{s, lt.layout, flag, "", ""}, Want: want, Instant: in.Format(time.RFC3339Nano), Layout: "explicit:" + lt.layout})
+			emit(c19Case{Fn: "dateTimeLayoutToRFC3339", Args: []string{s, lt.layout, flag, "", ""}, Want: want, Instant: in.UTC().Format(time.RFC3339Nano), Layout: "explicit:" + lt.layout})
 			if lt.tz {
-				emit(c19Case{Fn: "dateTimeLayoutToRFC3339", Args: []string{s, lt.layout, flag, "Asia/Tokyo", "America/New_York"}, Want: rfc(in.In(ny)), Instant: in.Format(time.RFC3339Nano), Layout: "explicit:" + lt.layout})
+				emit(c19Case{Fn: "dateTimeLayoutToRFC3339", Args: []string{s, lt.layout, flag, "Asia/Tokyo", "America/New_York"}, Want: rfc(in.In(ny)), Instant: in.UTC().Format(time.RFC3339Nano), Layout: "explicit:" + lt.layout})
 			} else {
 				tk, _ := time.LoadLocation("Asia/Tokyo")
 				x := time.Date(in.Year(), in.Month(), in.Day(), in.Hour(), in.Minute(), in.Second(), 0, tk)
-				emit(c19Case{Fn: "dateTimeLayoutToRFC3339", Args: []string{s, lt.layout, flag, "Asia/Tokyo", "America/New_York"}, Want: rfc(x.In(ny)), Instant: x.Format(time.RFC3339Nano), Layout: "explicit:" + lt.layout})
+				emit(c19Case{Fn: "dateTimeLayoutToRFC3339", Args: []string{s, lt.layout, flag, "Asia/Tokyo", "America/New_York"}, Want: rfc(x.In(ny)), Instant: x.UTC().Format(time.RFC3339Nano), Layout: "explicit:" + lt.layout})
 			}
 		}
 	}
